@@ -175,13 +175,13 @@ def snapshot(traj):
     return d
 
 
-def frac(x, maxden=1 << 20, tol=1e-9):
+def frac(x, maxden=1 << 20, tol=1e-9, abstol=0.0):
     """alpha for rationals: (num, den) or None"""
     from fractions import Fraction
     if not math.isfinite(x):
         return None
     f = Fraction(x).limit_denominator(maxden)
-    if abs(float(f) - x) > tol * max(1.0, abs(x)):
+    if abs(float(f) - x) > max(tol * max(1.0, abs(x)), abstol):
         return None
     return [f.numerator, f.denominator]
 
